@@ -75,11 +75,21 @@ def replay(ctx: Ctx, recs: List[Dict[str, Any]]) -> None:
             try:
                 with warnings.catch_warnings():
                     warnings.simplefilter("ignore")
-                    got = getattr(ag, greek)(pricer, **{k: (v.clone() if isinstance(v, torch.Tensor) else v) for k, v in kw.items()})
+                    args = {k: (v.clone() if isinstance(v, torch.Tensor) else v) for k, v in kw.items()}
+                    first = getattr(ag, greek)(pricer, **args)
+                    got = getattr(ag, greek)(pricer, **args)            # the same tensor objects again: a Greek is a function of its arguments
             except Exception as ex:
                 ctx.violation(f"autogreek:{greek}:raises", f"autogreek.{greek} raised {type(ex).__name__} for an accepted parameter combination", {**detail, "error": repr(ex)[:300]})
                 continue
             ctx.count(n=1)
+            if not torch.equal(first, got):
+                ctx.violation(f"autogreek:{greek}:repeat", f"autogreek.{greek} evaluated twice on the same argument tensors gives two different results (state is kept on the caller's tensors)",
+                              {**detail, "first": first.flatten().tolist()[:3], "second": got.flatten().tolist()[:3]})
+                continue
+            touched = [k for k, v in args.items() if isinstance(v, torch.Tensor) and (v.grad is not None or not torch.equal(v, kw[k]))]   # (requires_grad_() on the leaf is pfhedge's documented way of differentiating and is not counted)
+            if touched:
+                ctx.violation(f"autogreek:{greek}:arguments-modified", f"autogreek.{greek} left an accumulated gradient or new values on the caller's tensors {touched}", detail)
+                continue
             if got.dtype != DT:
                 ctx.violation(f"autogreek:{greek}:dtype", f"autogreek.{greek} of float64 inputs is returned in {got.dtype} (the differentiation leaf was re-cast)", detail)
                 continue
@@ -140,7 +150,12 @@ def closed_forms(ctx: Ctx) -> Dict[str, int]:
                     kw["max_log_moneyness"] = grid.mlm[sl]
                 for g in ("delta", "gamma", "vega", "theta"):
                     try:
-                        got = getattr(m, g)(**{k: v.clone() for k, v in kw.items()}).detach()
+                        args = {k: v.clone() for k, v in kw.items()}
+                        first = getattr(m, g)(**args).detach()
+                        got = getattr(m, g)(**args).detach()
+                        if not torch.equal(first.nan_to_num(), got.nan_to_num()):
+                            ctx.violation(f"module:{p}:{g}:repeat", f"{mcls.__name__}.{g} evaluated twice on the same argument tensors gives two different results", {"strike": K, "call": call})
+                            continue
                     except Exception as ex:
                         ctx.violation(f"module:{p}:{g}:raises", f"{mcls.__name__}.{g} raised {type(ex).__name__} inside the open domain", {"error": repr(ex)[:300], "strike": K})
                         continue
